@@ -1,4 +1,4 @@
-"""R-inline: a call of a PRIVATE helper function of the same source file that the unit does not know (it was introduced
+"""R-inline: a call of a helper function of the same source file that the unit does not know (it was introduced
 after the unit was written, e.g. by `extract function`) is replaced by the helper's body in a block:
 
     h(a0, a1)        ->   { let vx_i0 = a0; let vx_i1 = a1; let p0 = vx_i0; let p1 = vx_i1; BODY }
@@ -131,6 +131,16 @@ def _impl_of(m, text, pos):
     return best
 
 
+def defined_names(text):
+    """free functions by plain name, associated functions / methods as Type::name (of the text a unit was assembled to)"""
+    m = mask(text)
+    out = set()
+    for f in _fns(text, m):
+        impl_ = _impl_of(m, text, f['kw'])
+        out.add(f['name'] if impl_ is None else '%s::%s' % (impl_[0], f['name']))
+    return out
+
+
 def inline_helpers(text, known, path=''):
     log = []
     for _round in range(3):
@@ -141,13 +151,18 @@ def inline_helpers(text, known, path=''):
             break
         by_name = {}
         for f in fns:
-            by_name.setdefault(f['name'], []).append(f)
+            im_ = _impl_of(m, text, f['kw'])
+            by_name.setdefault((im_[0] if im_ else None, f['name']), []).append(f)
         cands = {}
-        for name, fl in by_name.items():
-            if name in known or len(fl) != 1:
+        for (_im, name), fl in by_name.items():
+            if len(fl) != 1:
                 continue
             f = fl[0]
-            if not f['ok'] or re.search(r'\bpub\b(?!\s*\()', f['head']) or 'extern' in f['head'] or 'const fn' in f['head'] or 'async' in f['head']:
+            impl_ = _impl_of(m, text, f['kw'])
+            # `known` holds the free functions the unit defines by plain name and its associated functions as Type::name
+            if (impl_ is None and name in known) or (impl_ is not None and ('%s::%s' % (impl_[0], name)) in known):
+                continue
+            if not f['ok'] or 'extern' in f['head'] or 'const fn' in f['head'] or 'async' in f['head']:
                 continue
             if any(a.startswith('#[') and not re.match(r'#\[(inline|allow|doc|must_use|cfg_attr\(kani)', a) for a in f['attrs'].split('\n') if a):
                 continue
@@ -158,12 +173,12 @@ def inline_helpers(text, known, path=''):
                 continue
             if re.search(r'\b%s\s*\(' % re.escape(name), bm):      # recursive
                 continue
-            cands[name] = f
+            cands[(_im, name)] = f
         if not cands:
             break
         # call sites (outside the helper's own item), last first
         sites = []
-        for name, f in cands.items():
+        for (_im, name), f in cands.items():
             impl = _impl_of(m, text, f['kw'])
             pats = []
             if impl is None:
@@ -188,7 +203,7 @@ def inline_helpers(text, known, path=''):
                     args = _split_top(text[o + 1:c], m[o + 1:c])
                     if len(args) != len(f['params']):
                         continue
-                    sites.append((cm.start(), c + 1, name, args))
+                    sites.append((cm.start(), c + 1, (_im, name), args))
         if not sites:
             break
         # drop nested sites (inner ones are handled in the next round)
@@ -200,7 +215,7 @@ def inline_helpers(text, known, path=''):
             flat.append(s_)
         bodies = {}
         for name, f in cands.items():
-            # the body with its comments cut out by position (the mask has comments AND string contents blank: a
+            # (name is the (impl, fn) key) the body with its comments cut out by position (the mask has comments AND string contents blank: a
             # position is inside a comment iff it is blank in the mask, not blank in the text and not inside quotes)
             raw = text[f['open'] + 1:f['close']]
             body = re.sub(r'/\*.*?\*/', ' ', raw, flags=re.S)
@@ -213,5 +228,5 @@ def inline_helpers(text, known, path=''):
             lets += ''.join('let %s = vx_i%d; ' % (p_, k) for k, p_ in enumerate(f['params']))
             nl = text[a:b].count('\n')
             text = text[:a] + '{ ' + lets + body + ' }' + '\n' * nl + text[b:]
-            log.append('%s: call of helper %s at offset %d replaced by its body' % (path, name, a))
+            log.append('%s: call of helper %s at offset %d replaced by its body' % (path, name[1] if isinstance(name, tuple) else name, a))
     return text, log
